@@ -67,12 +67,28 @@ pub fn authenticator_histories(ctx: &mut Ctx, prop: &str) {
                 mismatch_secs: *rng.pick(&[900i64, 900, 900, 3600, 300, 7200]),
             });
         }
+        // half of the later steps repeat the previous call with exactly ONE argument changed (tolerance, server time,
+        // region, service or the kind of call): whatever a call remembers must be keyed on every argument
+        for k in 1..steps.len() {
+            if rng.chance(1, 2) {
+                let mut st = steps[k - 1].clone();
+                match rng.below(5) {
+                    0 => st.mismatch_secs = *rng.pick(&[900i64, 300, 3600, 7200, 60]),
+                    1 => st.now = (t_secs + *rng.pick(&[0i64, 600, -600, 901, 1200, -1200, 3000, 5400]), 0),
+                    2 => st.region = rng.pick(&regions).to_string(),
+                    3 => st.service = rng.pick(&services).to_string(),
+                    _ => st.validate = !st.validate,
+                }
+                st.on_clone = rng.chance(1, 3);
+                steps[k] = st;
+            }
+        }
         // most histories start with a call that passes (what is remembered is usually a success)
         if i % 3 != 0 {
             steps[0].region = "us-east-1".into();
             steps[0].service = if i % 7 == 1 { "iam".into() } else { "service".into() };
-            steps[0].now = (t_secs + 60, 0);
-            steps[0].mismatch_secs = *rng.pick(&[900i64, 3600]);
+            steps[0].now = (t_secs + *rng.pick(&[60i64, 60, 1800, -1800, 3000]), 0);
+            steps[0].mismatch_secs = if (steps[0].now.0 - t_secs).abs() > 900 { *rng.pick(&[3600i64, 7200]) } else { *rng.pick(&[900i64, 3600]) };
         }
         let got = match imp::auth_history(&cred, (t_secs, 0), &steps) {
             Some(g) => g,
@@ -390,7 +406,7 @@ pub fn interleaved_pairs(ctx: &mut Ctx, prop: &str) {
 
 /// Absolute-form request targets whose authority differs from the Host header (port, letter case, another name): the
 /// signed `host` header is what counts; the request as signed must be accepted.
-pub fn absolute_form_authorities(ctx: &mut Ctx, prop: &str) {
+pub fn absolute_form_authorities(ctx: &mut Ctx, prop: &str) -> Vec<Done> {
     let mut rng = ctx.rng.fork();
     let n = ctx.n(40, 600);
     let mut jobs = Vec::new();
@@ -408,12 +424,12 @@ pub fn absolute_form_authorities(ctx: &mut Ctx, prop: &str) {
         c.uri = format!("{}{}", auth, origin);
         jobs.push(accept_job_case(c, &s, &format!("{}-absolute-form-authority", prop.to_lowercase()), "C02/C15: an absolute-form request target whose authority is not byte-identical to the Host header: the signed Host header is what the signature covers, the request must be accepted"));
     }
-    run_jobs(ctx, "VALIDATE", jobs);
+    run_jobs(ctx, "VALIDATE", jobs)
 }
 
 /// S3-style declared payload hashes: an `x-amz-content-sha256` header (signed or not) never replaces the hash of the
 /// body as received.
-pub fn declared_payload_hash(ctx: &mut Ctx, prop: &str) {
+pub fn declared_payload_hash(ctx: &mut Ctx, prop: &str) -> Vec<Done> {
     let mut rng = ctx.rng.fork();
     let n = ctx.n(40, 600);
     let mut jobs = Vec::new();
@@ -443,7 +459,7 @@ pub fn declared_payload_hash(ctx: &mut Ctx, prop: &str) {
         c2.body = other_body;
         jobs.push(job(c2, Expect::Refuse(Some("SignatureDoesNotMatch")), &format!("{}-declared-payload-hash", pc), "C01: a signature issued for one body validates the request with another body because a header declares that body's hash"));
     }
-    run_jobs(ctx, "VALIDATE", jobs);
+    run_jobs(ctx, "VALIDATE", jobs)
 }
 
 /// Repeated signed headers whose names other layers treat specially (cookie, content-length, te, …) under every
@@ -471,7 +487,7 @@ pub fn special_header_names(ctx: &mut Ctx, prop: &str) {
         }
         let now = now_for(&l, 0);
         let mut s = sign_and_spell(&l, &mut rng, &Spelling::plain(), now);
-        s.case.version = [11u8, 2, 3, 10, 2, 3][k % 6];
+        s.case.version = *rng.pick(&[11u8, 2, 3, 10, 2, 3]);
         jobs.push(accept_job(&s, &format!("{}-special-header-names", pc), "C11: multiple values of one signed header are joined by commas in arrival order, for every header name, HTTP version and option; a request signed that way was refused"));
         // the one-header spelling of the joined cookie (`a=1; b=2`) is another request
         if reps > 1 && name == "Cookie" {
@@ -689,7 +705,7 @@ pub fn many_auth_items(ctx: &mut Ctx, prop: &str) {
 /// A folded form request refused because its merged `path?query` is too long for a request target (long path, short
 /// query), then an ordinary folded request on the same thread: the second one's returned target carries exactly its own
 /// merged parameters.
-pub fn too_long_then_folded(ctx: &mut Ctx, prop: &str) {
+pub fn too_long_then_folded(ctx: &mut Ctx, prop: &str) -> Vec<Done> {
     let mut rng = ctx.rng.fork();
     let n = ctx.n(4, 40);
     let mut jobs = Vec::new();
@@ -727,7 +743,7 @@ pub fn too_long_then_folded(ctx: &mut Ctx, prop: &str) {
         let ss = sign_and_spell(&small, &mut rng, &Spelling::plain(), now);
         jobs.push(accept_job(&ss, &format!("{}-too-long-then-folded", pc), "C15: the returned target of a folded request carries exactly the merged URL-plus-body parameters of that request, whatever was refused before on this thread"));
     }
-    run_jobs(ctx, "VALIDATE", jobs);
+    run_jobs(ctx, "VALIDATE", jobs)
 }
 
 // ---------------------------------------------------------------------------------------------
@@ -805,11 +821,21 @@ pub fn tokens_and_damaged_dates(ctx: &mut Ctx, prop: &str) {
     let sh = sign_and_spell(&lh, &mut rng, &Spelling::plain(), now);
     let sq = sign_and_spell(&lq, &mut rng, &Spelling::plain(), now);
     for del in 0..compact.len() {
-        for ins in (0..compact.len()).step_by(step) {
+        // variant 0: one digit removed and a byte >= 0x80 inserted somewhere (16 bytes on the wire);
+        // variant 1: one character removed and another *replaced* by a byte >= 0x80 (15 bytes on the wire, 16 once the
+        // byte has become a two-byte character)
+        for (variant, ins) in (0..compact.len()).step_by(step).map(|i| (0, i)).chain((0..compact.len() - 1).map(|i| (1, i))) {
             for hb in [0xE9u8, 0xC3, 0xA0, 0xFF] {
+                if variant == 1 && !ctx.thorough && (hb == 0xA0 || hb == 0xFF) {
+                    continue;
+                }
                 let mut d: Vec<u8> = compact.to_vec();
                 d.remove(del);
-                d.insert(ins.min(d.len()), hb);
+                if variant == 0 {
+                    d.insert(ins.min(d.len()), hb);
+                } else {
+                    d[ins] = hb;
+                }
                 let mut c = sh.case.clone();
                 for (nme, v) in c.headers.iter_mut() {
                     if nme.eq_ignore_ascii_case("x-amz-date") {
